@@ -42,7 +42,7 @@ type tyInfo struct {
 	rt    reflect.Type
 	iface bool
 	val   func() any // a non-nil value (concrete types)
-	zval  func() any // a typed nil value (pointer / map types), or nil
+	zval  func() any // a second value of the type: the typed nil pointer / the zero struct (an "empty" value), or nil
 }
 
 func ifaceType[T any]() reflect.Type { return reflect.TypeOf((*T)(nil)).Elem() }
@@ -50,16 +50,16 @@ func ifaceType[T any]() reflect.Type { return reflect.TypeOf((*T)(nil)).Elem() }
 // order matters: the position among the concrete types / among the named interfaces is the
 // id in the model
 var universe = []tyInfo{
-	{name: "T1", rt: reflect.TypeOf(u.T1{}), val: func() any { return u.T1{X: 1} }},
-	{name: "T2", rt: reflect.TypeOf(u.T2{}), val: func() any { return u.T2{Y: 2} }},
-	{name: "T3", rt: reflect.TypeOf(u.T3{}), val: func() any { return u.T3{Z: 3} }},
+	{name: "T1", rt: reflect.TypeOf(u.T1{}), val: func() any { return u.T1{X: 1} }, zval: func() any { return u.T1{} }},
+	{name: "T2", rt: reflect.TypeOf(u.T2{}), val: func() any { return u.T2{Y: 2} }, zval: func() any { return u.T2{} }},
+	{name: "T3", rt: reflect.TypeOf(u.T3{}), val: func() any { return u.T3{Z: 3} }, zval: func() any { return u.T3{} }},
 	{name: "M", rt: reflect.TypeOf(map[string]any{}), val: func() any { return map[string]any{"k": 1} }},
 	// no typed nil NM value: two nil maps meeting at a fan-in merge successfully, and the model does not
 	// predict what happens behind a merge (RMerge); the non-nil values collide on their key
 	{name: "NM", rt: reflect.TypeOf(u.NM{}), val: func() any { return u.NM{"k": 1} }},
 	{name: "P1", rt: reflect.TypeOf(&u.T1{}), val: func() any { return &u.T1{X: 1} }, zval: func() any { return (*u.T1)(nil) }},
 	{name: "P3", rt: reflect.TypeOf(&u.T3{}), val: func() any { return &u.T3{Z: 3} }, zval: func() any { return (*u.T3)(nil) }},
-	{name: "BI", rt: reflect.TypeOf(u.Box[int]{}), val: func() any { return u.Box[int]{V: 7} }},
+	{name: "BI", rt: reflect.TypeOf(u.Box[int]{}), val: func() any { return u.Box[int]{V: 7} }, zval: func() any { return u.Box[int]{} }},
 	{name: "I1", rt: ifaceType[u.I1](), iface: true},
 	{name: "I2", rt: ifaceType[u.I2](), iface: true},
 	{name: "I2b", rt: ifaceType[u.I2b](), iface: true},
